@@ -1023,6 +1023,14 @@ func (rl *Shell) shellKillWord() {
 
 	_, epos := rl.selection.Pos()
 
+	// There might be no word, or no part of it, after point.
+	if epos <= startPos || epos > rl.line.Len() {
+		rl.cursor.Set(startPos)
+		rl.selection.Reset()
+
+		return
+	}
+
 	rl.Buffers.Write([]rune((*rl.line)[startPos:epos])...)
 	rl.line.Cut(startPos, epos)
 	rl.cursor.Set(startPos)
